@@ -20,7 +20,7 @@ CHECKS = {
               "markers (step_fidelity), lifted to whole programs (run_fidelity) and to init;ops;flush;free: the file "
               "starts with the header and its user events are exactly the emitted ones, once, in order "
               "(stream_fidelity); evlen is exact and < capacity in every reachable state (buffer_in_bounds). "
-              "Props/C01Write.lean (9) removes the assumption that write() completes for the loop of write_evbuf, the OS being an "
+              "Props/C01Write.lean (14) removes the assumption that write() completes for the loop of write_evbuf, the OS being an "
               "arbitrary list of answers (error or any count): when the loop ends the file grew by exactly the buffer "
               "(write_evbuf_exact), at every other moment by a prefix of it (write_evbuf_prefix), it ends within max(1,size) "
               "calls when every answer transfers a byte (write_evbuf_terminates), and its call log is what replay accepts "
